@@ -605,6 +605,33 @@ class Body:
             l = src["l"]
         return l
 
+    def const_value(self, op, depth=0):
+        """integer value of a constant operand or of arithmetic over constants (`LIMIT + 1` is not folded in the MIR we read); None otherwise"""
+        v = const_int(op)
+        if v is not None:
+            return v
+        pl = op_place(op)
+        if pl is None or depth > 6 or any(e["k"] != "field" for e in pl["p"]):
+            return None
+        ds = self.defs().get(pl["l"], [])
+        if len(ds) != 1 or ds[0][0] != "assign":
+            return None
+        rv = ds[0][3]
+        if rv["rv"] in ("use", "cast"):
+            return self.const_value(rv["op"], depth + 1)
+        if rv["rv"] in ("binop", "checked_binop"):
+            a, b = self.const_value(rv["a"], depth + 1), self.const_value(rv["b"], depth + 1)
+            if a is None or b is None:
+                return None
+            o = rv["op"]
+            if o.startswith("Add"):
+                return a + b
+            if o.startswith("Sub"):
+                return a - b
+            if o.startswith("Mul"):
+                return a * b
+        return None
+
     def reads(self, op, l):
         """the operand reads local l, directly or through plain copies / moves (`let x = call(); if x`)"""
         if op_local(op) == l:
